@@ -193,7 +193,7 @@ CLAIMS = {
                  "1x/2x/4x input sizes for four input families as EXECUTED INSTRUCTIONS (valgrind cachegrind, reproducible to < 1 %; 4x the input may take at "
                  "most 5.5x the instructions for the linear families and 24x when every segment adds a key format) and reported in coverage.timing; the wall "
                  "clock only bounds the absolute time. This measurement found that the repair a8c4d35 had made to_string() cubic in the number of active key "
-                 "formats (repaired by fix: bf36d8e)."),
+                 "formats (repaired by fix: 2c2b5e4)."),
         "design_ref": "DESIGN.md §7 C05",
         "note": "Harness built with overflow-checks and debug-assertions so that arithmetic overflow unwinds. Growth bounds are measured (instruction counts), not proved.",
     },
